@@ -41,18 +41,19 @@ HP = {'lat': ['-37.57037203', '0.0', '45.3', '-89.0', '90', '-0.0018'],
 
 
 def gen_dir(tier, seed):
-    for ft in TYPES:
-        src = HP if ft == 'dms' else DD
-        for la in src['lat']:
-            yield {'route': 'vincdir', 'from': ft, 'lat1': la, 'lons': src['lon'], 'azs': src['az'], 'dists': src['dist']}
+    # every case carries ALL three from_angle_type values for the same numbers: HP-valid text is sent as dd, as dms and
+    # without a type within one process (a cache keyed on the raw numbers would answer one with the other's solution)
+    for la in HP['lat']:
+        yield {'route': 'vincdir', 'froms': TYPES, 'lat1': la, 'lons': HP['lon'], 'azs': HP['az'], 'dists': HP['dist']}
+    for la in DD['lat']:
+        yield {'route': 'vincdir', 'froms': ['dd', None], 'lat1': la, 'lons': DD['lon'], 'azs': DD['az'], 'dists': DD['dist']}
 
 
 def gen_inv(tier, seed):
-    for ft in TYPES:
-        src = HP if ft == 'dms' else DD
+    for src, froms in ((HP, TYPES), (DD, ['dd', None])):
         pts = list(itertools.product(src['lat'], src['lon']))
         for p in pts:
-            yield {'route': 'vincinv', 'from': ft, 'p1': list(p), 'p2s': [list(q) for q in pts]}
+            yield {'route': 'vincinv', 'froms': froms, 'p1': list(p), 'p2s': [list(q) for q in pts]}
 
 
 def numeq(a, b):
@@ -93,21 +94,20 @@ def request(rec, route, q, expected_fn, one):
 
 
 def ev_dir(case, rec):
-    ft = case['from']
-    to_dd = hp2dec if ft == 'dms' else (lambda x: x)
     for lo in case['lons']:
         for az in case['azs']:
             for d in case['dists']:
-                for tt in TYPES:
+                for ft, tt in itertools.product(case.get('froms', [case.get('from')]), TYPES):
+                    to_dd = hp2dec if ft == 'dms' else (lambda x: x)
                     q = {'lat1': case['lat1'], 'lon1': lo, 'azimuth1to2': az, 'ell_dist': d}
                     if ft is not None:
                         q['from_angle_type'] = ft
                     if tt is not None:
                         q['to_angle_type'] = tt
-                    one = dict(case, lons=[lo], azs=[az], dists=[d], to=tt)
+                    one = dict(case, lons=[lo], azs=[az], dists=[d], to=tt, froms=[ft])
                     out = dec2hp if tt == 'dms' else (lambda x: x)
 
-                    def expected():
+                    def expected(to_dd=to_dd, out=out):
                         r = vincdir(to_dd(float(case['lat1'])), to_dd(float(lo)), to_dd(float(az)), float(d))
                         return {'lat2': out(r[0]), 'lon2': out(r[1]), 'azimuth2to1': out(r[2])}
                     request(rec, 'vincdir', q, expected, one)
@@ -115,20 +115,19 @@ def ev_dir(case, rec):
 
 
 def ev_inv(case, rec):
-    ft = case['from']
-    to_dd = hp2dec if ft == 'dms' else (lambda x: x)
     p1 = case['p1']
     for p2 in case['p2s']:
-        for tt in TYPES:
+        for ft, tt in itertools.product(case.get('froms', [case.get('from')]), TYPES):
+            to_dd = hp2dec if ft == 'dms' else (lambda x: x)
             q = {'lat1': p1[0], 'lon1': p1[1], 'lat2': p2[0], 'lon2': p2[1]}
             if ft is not None:
                 q['from_angle_type'] = ft
             if tt is not None:
                 q['to_angle_type'] = tt
-            one = dict(case, p2s=[p2], to=tt)
+            one = dict(case, p2s=[p2], to=tt, froms=[ft])
             out = dec2hp if tt == 'dms' else (lambda x: x)
 
-            def expected():
+            def expected(to_dd=to_dd, out=out):
                 r = vincinv(to_dd(float(p1[0])), to_dd(float(p1[1])), to_dd(float(p2[0])), to_dd(float(p2[1])))
                 return {'ell_dist': r[0], 'azimuth1to2': out(r[1]), 'azimuth2to1': out(r[2])}
             request(rec, 'vincinv', q, expected, one)
